@@ -52,6 +52,7 @@ func main() {
 		if sa := os.Getenv("VERIF_START_AT"); strings.HasPrefix(sa, "after:") {
 			c.SetStartAfter(strings.TrimPrefix(sa, "after:"))
 		}
+		c.SetPartialPath(a[6] + ".partial")
 		p.Run(c)
 		if err := c.Finish(a[6]); err != nil {
 			fmt.Fprintln(os.Stderr, "finish:", err)
